@@ -26,6 +26,7 @@ import (
 	"crypto/sha1"
 	"encoding/base64"
 	"fmt"
+	"net/http"
 	"net/url"
 	"strconv"
 	"strings"
@@ -42,6 +43,7 @@ type c09Inst struct {
 	Store   string
 	Expire  time.Duration
 	Refresh time.Duration
+	Large   bool // very large lifetime (cannot be waited for): reduced grid, equality checks on Max-Age / Expires / TTL, mocked-clock acceptance
 	P       *vfProxy
 	W       *vfWorld
 }
@@ -81,6 +83,8 @@ type c09SetCookie struct {
 	Name, Value string
 	MaxAge      string // raw attribute value, "" if absent
 	HasMaxAge   bool
+	Expires     string
+	HasExpires  bool
 	Raw         string
 }
 
@@ -100,6 +104,9 @@ func c09ParseLine(line string) c09SetCookie {
 		if strings.EqualFold(k, "max-age") {
 			sc.MaxAge, sc.HasMaxAge = v, true
 		}
+		if strings.EqualFold(k, "expires") {
+			sc.Expires, sc.HasExpires = v, true
+		}
 	}
 	return sc
 }
@@ -116,7 +123,8 @@ func (c *c09Ctx) isSessionName(n string) bool {
 }
 
 // sessionSets returns the session cookies a response sets (non-empty value), checking Max-Age == expire on each.
-func (c *c09Ctx) sessionSets(in *c09Inst, resp *vfResp, where string, req *vfReq) []c09SetCookie {
+// stamp: the imposed pkg/clock time of the request, if any (an Expires attribute may be computed from either clock).
+func (c *c09Ctx) sessionSets(in *c09Inst, resp *vfResp, where string, req *vfReq, stamp *time.Time) []c09SetCookie {
 	var out []c09SetCookie
 	for _, line := range resp.SetCookies() {
 		sc := c09ParseLine(line)
@@ -130,6 +138,19 @@ func (c *c09Ctx) sessionSets(in *c09Inst, resp *vfResp, where string, req *vfReq
 		if !sc.HasMaxAge || sc.MaxAge != want {
 			c.run.Violation("c09:max-age-differs", fmt.Sprintf("%s: session cookie set at %s has Max-Age=%q, configured lifetime is %s seconds", in, where, sc.MaxAge, want),
 				map[string]interface{}{"flags": in.P.Flags, "request": req, "set_cookie": vfTrunc(line, 300), "expected_max_age": want})
+		}
+		if sc.HasExpires {
+			// an Expires attribute, when given, must name the same end of life as Max-Age: (real or imposed) now + lifetime
+			c.run.Count("expires_checks", 1)
+			ok := false
+			if et, err := http.ParseTime(sc.Expires); err == nil {
+				near := func(ref time.Time) bool { d := et.Sub(ref.Add(in.Expire)); return d > -5*time.Second && d < 5*time.Second }
+				ok = near(time.Now()) || (stamp != nil && near(*stamp))
+			}
+			if !ok {
+				c.run.Violation("c09:expires-differs", fmt.Sprintf("%s: session cookie set at %s has Expires=%q, which is not now + the configured lifetime %s", in, where, sc.Expires, in.Expire),
+					map[string]interface{}{"flags": in.P.Flags, "request": req, "set_cookie": vfTrunc(line, 300)})
+			}
 		}
 	}
 	return out
@@ -216,7 +237,7 @@ func (c *c09Ctx) issue(in *c09Inst, origin string, T time.Time, idTTL time.Durat
 	if resp.Code != 302 {
 		return nil, fmt.Errorf("issuing request (%s at %s): status %d %s", origin, T.Format(time.RFC3339), resp.Code, vfTrunc(vfErrText(resp.Body), 200))
 	}
-	sets := c.sessionSets(in, resp, "login("+origin+")", req)
+	sets := c.sessionSets(in, resp, "login("+origin+")", req, &T)
 	if len(sets) == 0 {
 		return nil, fmt.Errorf("issuing request set no session cookie")
 	}
@@ -373,7 +394,7 @@ func (c *c09Ctx) probe(cr *c09Cred, channel string, mock *time.Time) c09Result {
 	res := c09Result{Want: want, Outcome: outcome}
 	// a response that re-issues the session (refresh): equality checks + the new credential
 	where := "refresh"
-	sets := c.sessionSets(in, resp, where, req)
+	sets := c.sessionSets(in, resp, where, req, mock)
 	if len(sets) > 0 {
 		pr.Refreshed = true
 		c.run.Count("refresh_reissues", 1)
@@ -482,7 +503,7 @@ func c09RefreshFor(e time.Duration) time.Duration {
 func TestVerif_C09(t *testing.T) {
 	run := vfNewRun(t, "C09", "exploration")
 	run.SetRule("sessions are issued at an imposed time T (pkg/clock mock around the issuing request only) on a one-second grid around every threshold " +
-		"(T+expire, T-5min, age=refresh) for cookie-expire x cookie-refresh {0, expire/3} x {cookie, redis} x {OIDC with / without refresh token, htpasswd form}; probes run in real time and are bracketed [t0,t1]; " +
+		"(T+expire, T-5min, age=refresh) for cookie-expire {seconds .. a week; plus 400 days +-1 s, 2 y, 10 y and the largest duration the flag accepts on a reduced grid} x cookie-refresh {0, expire/3} x {cookie, redis} x {OIDC with / without refresh token, htpasswd form}; probes run in real time and are bracketed [t0,t1]; " +
 		"refresh histories restamp at an imposed time R (mock) or in real time and both the new and the superseded credential are probed along a real-time timeline; " +
 		"Max-Age of every session Set-Cookie and the miniredis TTL after every save are compared with cookie-expire. " +
 		"cell = (store, threshold kind {expire, future} x {issued, restamped, superseded}, side, distance bucket, expire); non-trivial = within 3 s of a threshold")
@@ -523,6 +544,40 @@ func TestVerif_C09(t *testing.T) {
 		}
 	}
 
+	// very large lifetimes: around the 400 days user agents cap cookies at, years, and the largest value the flag accepts.
+	// They cannot be waited for; the equalities (Max-Age, Expires, Redis TTL == configured lifetime) and the mocked-clock
+	// grid around now-lifetime apply unchanged.
+	const day = 24 * time.Hour
+	maxDur := time.Duration(1<<63 - 1).Truncate(time.Second) // 2562047h47m16s
+	large := []time.Duration{400*day - time.Second, 400*day + time.Second, 2 * 365 * day, 10 * 365 * day, maxDur}
+	if run.Env.Thorough() {
+		large = append(large, 400*day, 401*day, 5*365*day, 100*365*day)
+	}
+	for si, store := range []string{"cookie", "redis"} {
+		for li, e := range large {
+			r := time.Duration(0)
+			if (si+li)%2 == 1 {
+				r = c09RefreshFor(e)
+			}
+			flags := []string{"--session-store-type=" + store, "--cookie-expire=" + c09Dur(e), "--cookie-refresh=" + c09Dur(r), "--insecure-oidc-skip-nonce=true"}
+			if store == "redis" {
+				flags = append(flags, "--redis-connection-url="+w.RedisURL())
+			}
+			if r == 0 {
+				flags = append(flags, "--htpasswd-file="+ht)
+			}
+			p, err := w.NewProxy(flags...)
+			if err != nil {
+				t.Fatalf("C09 rig: %v: %v", flags, err)
+			}
+			if p.Opts.Cookie.Expire != e {
+				t.Fatalf("C09 rig: --cookie-expire=%s parsed as %s", c09Dur(e), p.Opts.Cookie.Expire)
+			}
+			insts = append(insts, &c09Inst{Store: store, Expire: e, Refresh: r, Large: true, P: p, W: w})
+			run.Count("large_lifetime_instances", 1)
+		}
+	}
+
 	c09Grid(c, insts)
 	pending := c09RefreshHistories(c, insts)
 	c09Timeline(c, pending)
@@ -552,6 +607,33 @@ func c09Grid(c *c09Ctx, insts []*c09Inst) {
 				rel string
 			}
 			var offs []off
+			if in.Large {
+				if round > 0 {
+					continue
+				}
+				for k := -2; k <= 2; k++ {
+					offs = append(offs, off{-in.Expire + time.Duration(k)*time.Second, "now-expire"})
+				}
+				offs = append(offs, off{0, "now"}, off{299 * time.Second, "now"}, off{301 * time.Second, "now"})
+				for _, origin := range []string{"oidc", "oidc-nort"} {
+					for _, o := range offs {
+						chn++
+						c.gridCase(in, origin, o.d, o.rel, c09Channels[chn%len(c09Channels)], 0)
+					}
+				}
+				if in.Refresh == 0 {
+					chn++
+					c.gridCase(in, "htpasswd", -in.Expire+time.Second, "now-expire", c09Channels[chn%len(c09Channels)], 0)
+					c.gridCase(in, "htpasswd", -in.Expire, "now-expire", c09Channels[chn%len(c09Channels)], 0)
+				}
+				if in.Store == "cookie" {
+					chn++
+					c.gridCase(in, "oidc-large", -in.Expire+time.Second, "now-expire", c09Channels[chn%len(c09Channels)], 0)
+					c.gridCase(in, "oidc-large", 0, "now", c09Channels[chn%len(c09Channels)], 0)
+				}
+				c.w.Up.Reset()
+				continue
+			}
 			for k := -span; k <= span; k++ {
 				offs = append(offs, off{-in.Expire + time.Duration(k)*time.Second, "now-expire"})
 			}
@@ -765,7 +847,7 @@ func c09StoreExpiry(c *c09Ctx, t *testing.T) {
 	w2 := vfNewWorld(t)
 	defer w2.Close()
 	mr := w2.Redis()
-	lifetimes := []time.Duration{5 * time.Second, 90 * time.Second, time.Hour, 168 * time.Hour}
+	lifetimes := []time.Duration{5 * time.Second, 90 * time.Second, time.Hour, 168 * time.Hour, 400*24*time.Hour + time.Second, 10 * 365 * 24 * time.Hour}
 	c2 := &c09Ctx{run: c.run, w: w2, name: c.name}
 	for _, e := range lifetimes {
 		for _, r := range []time.Duration{0, c09RefreshFor(e)} {
